@@ -2,6 +2,7 @@ package props
 
 import (
 	"fmt"
+	"os"
 	"strings"
 	"testing"
 
@@ -102,7 +103,46 @@ func TestC01(t *testing.T) {
 	}
 	rapid.Check(t, func(t *rapid.T) {
 		sc := genStackCase(t, []string{"std"})
-		st := stack.Get(sc.Cfg)
+		c01Property(t, rec, stack.Get(sc.Cfg), sc, maxSteps, "")
+	})
+}
+
+// TestC01Memproxy runs the same property black-box against the real memproxy
+// binary (built by the driver from app/memproxy.go), which covers the wiring
+// done in main: flags, handler constructors, the batch port sharing the lock
+// set.  One configuration per shard.
+func TestC01Memproxy(t *testing.T) {
+	bin := os.Getenv("VERIF_MEMPROXY")
+	if bin == "" {
+		t.Skip("VERIF_MEMPROXY not set")
+	}
+	rec := evid.For("C01")
+	shard, _ := evid.Shard()
+	cfgs := []stack.Config{
+		{Shape: "l1l2+batch", Lock: "nolock", L1: "std", L2: "std"},
+		{Shape: "l1l2+batch", Lock: "lockNr", L1: "std", L2: "std", Conc: 3},
+		{Shape: "l1only", Lock: "nolock", L1: "std", L2: "-"},
+		{Shape: "l1l2+batch", Lock: "lock1r", L1: "std", L2: "std", Conc: 0},
+		{Shape: "l1only", Lock: "lockNr", L1: "std", L2: "-", Conc: 8},
+		{Shape: "l1l2+batch", Lock: "lockNr", L1: "std", L2: "std", Conc: 0},
+	}
+	cfg := cfgs[shard%len(cfgs)]
+	st, err := stack.External(cfg, bin)
+	if err != nil {
+		t.Fatalf("harness: %v", err)
+	}
+	defer st.Stop()
+	rapid.Check(t, func(t *rapid.T) {
+		sc := stackCase{Cfg: cfg, Binary: rapid.Bool().Draw(t, "binary")}
+		c01Property(t, rec, st, sc, 40, "memproxy-binary:")
+		if !st.Alive() {
+			t.Fatalf("C01 memproxy %s: the server process died", cfg)
+		}
+	})
+}
+
+func c01Property(t *rapid.T, rec *evid.Rec, st *stack.Stack, sc stackCase, maxSteps int, tag string) {
+	{
 		ses := newSession(st, sc.Binary)
 		defer ses.close()
 		model := refmodel.New()
@@ -199,13 +239,13 @@ func TestC01(t *testing.T) {
 			fail(n, sent, fmt.Sprintf("sentinel: %v %s", err, got))
 		}
 		nt := dependent > 0
-		cl := []string{"cfg:" + sc.String()}
+		cl := []string{"cfg:" + tag + sc.String()}
 		for c := range classes {
 			cl = append(cl, c)
 		}
-		rec.Case(nt, fp.String(), cl...)
+		rec.Case(nt, tag+fp.String(), cl...)
 		if rec.WantSample(nt) {
-			rec.Sample(nt, map[string]interface{}{"config": sc.String(), "commands": cmdsString(cmds)})
+			rec.Sample(nt, map[string]interface{}{"config": tag + sc.String(), "commands": cmdsString(cmds)})
 		}
-	})
+	}
 }
